@@ -7,6 +7,8 @@ package main
 // pivot links, with and without a Service block.
 
 import (
+	"net"
+	"io"
 	"crypto/sha256"
 	"encoding/binary"
 	"fmt"
@@ -21,13 +23,47 @@ import (
 	"Havoc/pkg/service"
 
 	"verifharness/internal/gen"
+	"verifharness/internal/mockts"
 )
 
 func init() { commands["C01"] = runC01 }
 
 type c01World struct {
 	*realWorld
-	keys map[uint32][2][]byte
+	keys  map[uint32][2][]byte
+	hport int // a real HTTP listener (handlers.HTTP, its routes and its gin engine) in front of a mock teamserver
+}
+
+// rawHTTP sends raw bytes to the real HTTP listener and reports the status code of the answer ("none": the connection
+// was closed or stayed silent for 3 s)
+func (w *c01World) rawHTTP(raw []byte) string {
+	if w.hport == 0 {
+		h := handlers.NewConfigHttp()
+		h.Teamserver = mockts.New()
+		w.hport = freePort()
+		h.Config = handlers.HTTPConfig{Name: "c01", Hosts: []string{"127.0.0.1"}, HostBind: "127.0.0.1", PortBind: fmt.Sprint(w.hport), PortConn: fmt.Sprint(w.hport)}
+		h.Start()
+		for i := 0; i < 200; i++ {
+			if cn, err := net.DialTimeout("tcp", fmt.Sprintf("127.0.0.1:%d", w.hport), ms(50)); err == nil {
+				cn.Close()
+				break
+			}
+			time.Sleep(ms(5))
+		}
+	}
+	cn, err := net.DialTimeout("tcp", fmt.Sprintf("127.0.0.1:%d", w.hport), ms(500))
+	if err != nil {
+		return "noconn"
+	}
+	defer cn.Close()
+	cn.Write(raw)
+	cn.SetReadDeadline(time.Now().Add(3 * time.Second))
+	buf := make([]byte, 64)
+	n, _ := io.ReadAtLeast(cn, buf, 12)
+	if n >= 12 && strings.HasPrefix(string(buf[:n]), "HTTP/1.") {
+		return string(buf[9:12])
+	}
+	return "none"
 }
 
 var frameRe = regexp.MustCompile(`Havoc/[A-Za-z0-9_/.]+\.\(?\*?[A-Za-z0-9_]*\)?\.?[A-Za-z0-9_]+`)
@@ -187,6 +223,8 @@ func (w *c01World) line(c *Ctx, in string) {
 		} else {
 			c.Emit("%s", in)
 		}
+	case "http": // http <raw request hex>: over TCP to the real listener; any request, however framed, is answered
+		c.Emit("%s => reply=%s", in, w.rawHTTP(unhx(parts[1])))
 	case "issue": // issue <id hex> <req>
 		var id, req uint32
 		fmt.Sscanf(parts[1], "%x", &id)
@@ -238,6 +276,26 @@ func runC01(c *Ctx) {
 		return
 	}
 	r := c.R
+	// the HTTP framing of a request is the sender's too: length given, wrong, absent (chunked), bodies of any kind
+	{
+		junk := string(r.Bytes(40))
+		reg := string(initPackage(0x00c01001, 0x00c01001, r.Bytes(32), r.Bytes(16), genRegInfo(r)))
+		for _, b := range []string{junk, reg, ""} {
+			chunked := fmt.Sprintf("%x\r\n%s\r\n0\r\n\r\n", len(b), b)
+			for _, raw := range []string{
+				fmt.Sprintf("POST /x HTTP/1.1\r\nHost: h\r\nContent-Length: %d\r\n\r\n%s", len(b), b),
+				"POST /x HTTP/1.1\r\nHost: h\r\nTransfer-Encoding: chunked\r\n\r\n" + chunked,
+				"POST / HTTP/1.1\r\nHost: h\r\nTransfer-Encoding: chunked\r\nConnection: close\r\n\r\n" + chunked,
+				"POST /x HTTP/1.0\r\n\r\n" + b,
+				fmt.Sprintf("POST /x HTTP/1.1\r\nHost: h\r\nContent-Length: %d\r\nConnection: close\r\n\r\n%s", len(b), b),
+				"POST /x HTTP/1.1\r\nHost: h\r\nContent-Length: 0\r\n\r\n",
+				"GET /x HTTP/1.1\r\nHost: h\r\n\r\n",
+			} {
+				c.Count("http.framing")
+				w.line(c, "http "+hx([]byte(raw)))
+			}
+		}
+	}
 	for c.Lines < c.N {
 		svc := "0"
 		if r.Bool() {
